@@ -73,6 +73,20 @@ def cases(tier, seed):
         cs.append(Case("scr-%d" % i, ops, ("scripts",)))
     cs.append(Case("refusals", ["ep.big get o", "ep.big get c", "ep.big put o", "ep.big put c", "ep.get o 0102 - 0", "ep.get c 0102 k1 0",
                                 "ep.put o - -", "ep.put c k1 -", "ep.getmost c 0102 - 0"], ("refusal",)))
+    # transfer counts that do not fit 32 bits: every residue an errno could alias (2^32 - e for the errno values the
+    # loops test for and their neighbours), powers of two and their neighbours; the caller's buffer is address space only
+    huge = []
+    for base in (2 ** 31, 2 ** 32, 2 ** 33):
+        for d in list(range(-40, 3)) + [-(2 ** 15), -(2 ** 16)]:
+            huge.append(base + d)
+    ops = []
+    for f in sorted(set(huge)):
+        for what in ("get", "put"):
+            ops.append("ep.huge %s %d %d" % (what, f, f + 100))
+            ops.append("ep.huge %s %d %d" % (what, f, f + 1))
+    ops += ["ep.huge get 5 %d" % (2 ** 63), "ep.huge put 5 %d" % (2 ** 63), "ep.huge get 1 %d" % (2 ** 63 - 1)]
+    for i in range(0, len(ops), 100):
+        cs.append(Case("huge-%d" % i, ops[i:i + 100], ("huge-counts",)))
     # plumbing
     fns = ["cbc", "n_cbc", "drain_cbc", "n", "drain", "some_aux", "atmost_aux", "n_aux", "drain_aux"]
     nozero = [s for s in SYMS if s != "z"]
